@@ -378,9 +378,26 @@ func (c C16) Run(t *tape.Tape, opt core.RunOpt) (res core.Result) {
 				res.Violate("C16", cls, fmt.Sprintf("the %s arrangement answers differently: %s\n%s", a.kind, d, describe()), nil)
 				return
 			}
-		} else if got.obs.Roots != base.obs.Roots {
-			res.Violate("C16", "operation_roots_differ:"+a.kind, fmt.Sprintf("operation roots %v vs %v\n%s", base.obs.Roots, got.obs.Roots, describe()), nil)
-			return
+		} else {
+			if got.obs.Roots != base.obs.Roots {
+				res.Violate("C16", "operation_roots_differ:"+a.kind, fmt.Sprintf("operation roots %v vs %v\n%s", base.obs.Roots, got.obs.Roots, describe()), nil)
+				return
+			}
+			// requests that do not depend on member order (one field each) must
+			// resolve identically
+			want := map[string]string{}
+			for i, rq := range base.obs.Requests {
+				want[rq] = base.obs.Responses[i]
+			}
+			for i, rq := range got.obs.Requests {
+				if strings.Contains(rq, "{ __typename") && !strings.HasSuffix(rq, "{ __typename } }") {
+					continue // the composite selection lists fields in declaration order
+				}
+				if w, ok := want[rq]; ok && w != got.obs.Responses[i] {
+					res.Violate("C16", "requests_resolve_differently:"+a.kind, fmt.Sprintf("request %s resolves differently: canonical %s vs %s\n%s", rq, w, got.obs.Responses[i], describe()), nil)
+					return
+				}
+			}
 		}
 	}
 	_ = ggql.Sort
